@@ -121,21 +121,33 @@ func semRun(encSrc, file, tmpl, dataSx string) string {
 	if jsErr != nil {
 		msg := jsErr.Error()
 		if strings.HasPrefix(msg, "TypeError") {
-			return "ERROR " + hxs(body)
+			return "ERROR " + hxs(body) + " " + hxs(js)
 		}
 		return "JSFAIL " + hxs(msg) + " " + hxs(body)
 	}
-	return "OK " + hxs(out) + " " + hxs(body)
+	return "OK " + hxs(out) + " " + hxs(body) + " " + hxs(js)
 }
 
 var semStats = map[string]int{}
 
 // semDiffers: does the engine's completion contradict the semantics' answer?
+// The engine answers `OK <out> <body> <file>` / `ERROR <body> <file>`: the entry function's statements and the whole
+// generated file.  The semantics answers `TAG [<out>] <text>` — the statements of the entry template, compared with
+// <body> — or, at the FUNCTION level (every template of the file in the fragment), `TAG [<out>] <text> F`: the text of
+// all functions of the file, which the generated file must END with (Props/C04f visitSoyFile_renders).
 func semDiffers(c *Case, want, impl string) bool {
 	wf, imf := strings.Split(want, " "), strings.Split(impl, " ")
+	funcLevel := len(wf) >= 2 && wf[len(wf)-1] == "F"
+	if funcLevel {
+		wf = wf[:len(wf)-1]
+		semStats["function level (through the table)"]++
+	}
 	semStats["semantics:"+wf[0]]++
 	if strings.Contains(c.Req, "7b63616c6c20") { // "{call "
 		semStats["with {call}, semantics:"+wf[0]]++
+		if funcLevel {
+			semStats["with {call}, function level, semantics:"+wf[0]]++
+		}
 		if strings.Contains(c.Req, "646174613d22616c6c22") { // data="all"
 			semStats["with data=all, semantics:"+wf[0]]++
 		}
@@ -146,15 +158,32 @@ func semDiffers(c *Case, want, impl string) bool {
 			semStats["with a content param, semantics:"+wf[0]]++
 		}
 	}
-	if wf[0] == "UNSPEC" || wf[0] == "HANG" {
-		// the semantics is silent about the completion; the text must still be the same
+	if wf[0] == "HANG" {
 		semStats["unspec, engine:"+imf[0]]++
-		if wf[0] == "HANG" {
-			return false // the driver's evaluator ran out of time (long nested loops): no answer to compare
-		}
-		return len(wf) < 2 || len(imf) < 2 || wf[len(wf)-1] != imf[len(imf)-1]
+		return false // the driver's evaluator ran out of time (long nested loops): no answer to compare
 	}
-	return want != impl
+	// the text
+	if len(wf) < 2 || len(imf) < 3 {
+		return true
+	}
+	text := wf[len(wf)-1]
+	if funcLevel {
+		if !strings.HasSuffix(imf[len(imf)-1], text) {
+			return true
+		}
+	} else if imf[len(imf)-2] != text {
+		return true
+	}
+	if wf[0] == "UNSPEC" {
+		// the semantics is silent about the completion
+		semStats["unspec, engine:"+imf[0]]++
+		return false
+	}
+	// the completion
+	if wf[0] != imf[0] {
+		return true
+	}
+	return wf[0] == "OK" && wf[1] != imf[1]
 }
 
 func init() {
